@@ -10,7 +10,7 @@ from .record import exc_sig
 
 
 def views(stage: str, scfg: Any, inp: Any) -> Dict[str, Any]:
-    out: Dict[str, Any] = {"iter": [], "iterexc": "", "views": {}, "viewexc": {}}
+    out: Dict[str, Any] = {"iter": [], "iterexc": "", "views": {}, "viewexc": {}, "from": {}}
     try:
         out["iter"] = [str(n) for n, _ in scfg]
     except Exception as e:
@@ -23,6 +23,15 @@ def views(stage: str, scfg: Any, inp: Any) -> Dict[str, Any]:
         except Exception as e:
             out["views"][lvl] = []
             out["viewexc"][lvl] = exc_sig(e)
+        # the iterator started at an explicit head (every item of a small level in turn)
+        if len(g.graph) <= 8 and not out["viewexc"][lvl]:
+            fr = {}
+            for h in list(g.graph):
+                try:
+                    fr[str(h)] = [str(n) for n in g.concealed_region_view.region_view_iterator(h)]
+                except Exception as e:
+                    fr[str(h)] = ["!" + exc_sig(e)]
+            out["from"][lvl] = fr
         if depth > 100:
             return
         for n, b in list(g.graph.items()):
